@@ -69,6 +69,27 @@ MCSpec == MCInit /\ [][MCNext]_mcvars
 
 ItemCount == Cardinality({i \in 1..Len(yielded) : yielded[i].k # "none"}) <= Len(section) \div 3 + 1
 
+(***************************************************************************)
+(* Refinement: every step of the concrete cursor is a step of the integer  *)
+(* abstraction TlvCursor (whose safety Apalache proves for sections of any *)
+(* length), with the declared length read from the section as the witness  *)
+(* of the abstraction's existential.                                       *)
+(***************************************************************************)
+RealCount == Cardinality({i \in 1..Len(yielded) : yielded[i].k # "none"})
+HasErr == \E i \in 1..Len(yielded) : yielded[i].k = "err"
+LastKind == IF yielded = << >> THEN "-" ELSE yielded[Len(yielded)].k
+
+Abs == INSTANCE TlvCursor WITH Skewed <- FALSE, len <- Len(section), off <- offset, items <- RealCount,
+                               errd <- HasErr, last <- LastKind
+
+Witness == IF offset + 3 <= Len(section) THEN BE16(section[offset + 2], section[offset + 3]) ELSE 0
+
+RefStep == Abs!AtEnd \/ Abs!Leftover \/ (Witness \in 0..65535 /\ Abs!ItemWith(Witness))
+
+RefinesAbstract == [][mode = "walk" => RefStep]_mcvars
+
+AbsSafe == Abs!Safe
+
 WalkInvs == mode = "walk" => PrefixOfWalk /\ Tiling /\ Exhausts
 
 Export ==
